@@ -294,10 +294,12 @@ func renderBlock(lines []render.CaseLine, offset int, hd hostDirs, root string, 
 		}
 		if uninst > 0 && cl.Case.Fam == "part" && (offset+i)%uninst == 0 {
 			kinds, err := render.ObserveUninstall(mat)
-			if err != nil {
-				failMu.Lock()
-				failures = append(failures, cl.ID+": uninstall: "+err.Error())
-				failMu.Unlock()
+			if err != nil { // an observation, not a harness failure: the real install / uninstall refused the rendered manifest
+				msg := err.Error()
+				if len(msg) > 300 {
+					msg = msg[:300]
+				}
+				accs[i].UninstErr = msg
 			} else {
 				accs[i].Uninst = kinds
 			}
